@@ -267,6 +267,9 @@ def _distribute(g: MG, draw, prog):
         # at least one macro lives in an imported file: the one nothing else calls into from below (index 0 is a leaf callee)
         file_of[0] = g.i(1, nfiles)
     kinds = ["same", "sub", "parent", "abs", "lookup", "sibling"]
+    # the lookup directories are searched in the order the caller lists them - which need not be the alphabetical order
+    # of their names
+    lp_order = list(draw(st.permutations([1, 2, 3])))
     files = []
     for f in range(1, nfiles + 1):
         kind = g.pick(kinds)
@@ -282,9 +285,11 @@ def _distribute(g: MG, draw, prog):
             rel = g.pick(["proj_common", "project", "proj2", "proj.d"]) + "/" + fname
         elif kind == "abs":
             rel = f"elsewhere/{fname}"
-        else:
-            rel = f"lp{g.i(1, 3)}/lib/{fname}"
-        files.append({"kind": kind, "path": rel, "macros": [i for i in range(n) if file_of[i] == f], "imports": set()})
+        lp_pos = None
+        if kind == "lookup":
+            lp_pos = g.i(0, 2)
+            rel = f"lp{lp_order[lp_pos]}/lib/{fname}"
+        files.append({"kind": kind, "path": rel, "macros": [i for i in range(n) if file_of[i] == f], "imports": set(), "lp_pos": lp_pos})
     main_macros = [i for i in range(n) if file_of[i] == 0]
     # import edges so that every callee is visible
     edges: dict[int, set] = {f: set() for f in range(0, nfiles + 1)}
@@ -343,10 +348,9 @@ def _distribute(g: MG, draw, prog):
     decoys = []
     for fd in files:
         if fd["kind"] == "lookup":
-            lpn = int(fd["path"][2])
-            for later in range(lpn + 1, 4):
+            for later in range(fd["lp_pos"] + 1, 3):
                 if g.b():
-                    decoys.append({"path": f"lp{later}/" + fd["path"].split("/", 1)[1],
+                    decoys.append({"path": f"lp{lp_order[later]}/" + fd["path"].split("/", 1)[1],
                                    "prog": {"imports": [], "macros": [{"name": macros[i]["name"], "params": macros[i]["params"],
                                                                          "body": [{"k": "op", "name": "DECOY", "args": [], "ctx": None}]}
                                                                         for i in fd["macros"]] or
@@ -366,7 +370,7 @@ def _distribute(g: MG, draw, prog):
             ri += 1
     main["order"] = order
     return {"multi": True, "main": main, "main_path": main_path, "files": out_files, "decoys": decoys,
-            "lookup": ["lp1", "lp2", "lp3"], "all_macros": macros}
+            "lookup": [f"lp{x}" for x in lp_order], "all_macros": macros}
 
 
 # --------------------------------------------------------------------------------------
